@@ -531,4 +531,221 @@ theorem semAfter_placed_else (f : Func) (pre region post : List Instr) (sel endI
   have := lower_from_region f pre region post sel endI none (some pr) hbody hpne hsp hentry hexit hpre hreg hpost ⟨hcore.2.1, hcore.2.2⟩
   simpa using this
 
+/-! ### block exit on an `if`: the probe waits for the `else` of that `if`, or for its `end` when there is none -/
+
+/-- only bodies waiting for the `else` / `end` of the `if` with id `d` are parked -/
+structure ParkedE (d : Nat) (s : RState) : Prop where
+  entry : s.entry = []
+  exit : s.exit = []
+  ke : ∀ p ∈ s.onElseOrEnd, p.1 = d
+  e2 : s.onEndBefore = []
+  e3 : s.onEndAfter = []
+
+/-- depth bookkeeping inside an arm: an `else` at the arm's own level does not belong to it -/
+def depthStepE (k : Kind) (n : Nat) : Option Nat :=
+  match k with
+  | .else_ => if n = 0 then none else some n
+  | k => depthStep k n
+
+def depthAfterE : List Instr → Nat → Option Nat
+  | [], n => some n
+  | x :: xs, n => (depthStepE x.kind n).bind (depthAfterE xs)
+
+theorem rstep_clean_parkedE (last : Nat) (d : Nat) (s : RState) (idx : Nat) (ins : Instr) (hc : Clean ins) (hs : ParkedE d s)
+    (hd : s.deleteBlock = none) (m : Nat) (hst : s.stack = List.range (d + 1 + m)) (m' : Nat) (hn : depthStepE ins.kind m = some m') :
+    let s' := rstep last s idx ins
+    ParkedE d s' ∧ s'.deleteBlock = none ∧ s'.body = s.body ∧ s'.stack = List.range (d + 1 + m') ∧ s'.nlocals = s.nlocals
+      ∧ s'.added = s.added ∧ s'.onElseOrEnd = s.onElseOrEnd := by
+  have hb := hc.blockAlt
+  cases hk : ins.kind with
+  | block | loop | if_ =>
+    all_goals
+      simp only [hk, depthStepE, depthStep, Option.some.injEq] at hn
+      subst hn
+      simp only [rstep, hs.entry, hs.exit, hk, hb, hd, List.isEmpty_nil, Bool.not_true, Bool.false_and, Bool.false_eq_true,
+        if_false, if_true, Option.isNone_none, Option.isSome_none, planSpecial_clean _ _ _ hc]
+      refine ⟨⟨?_, ?_, ?_, ?_, ?_⟩, ?_, ?_, ?_, ?_, ?_, ?_⟩ <;>
+        first
+          | exact hs.ke
+          | (simp only [hst]; rw [show d + 1 + (m + 1) = (d + 1 + m) + 1 by omega, List.range_succ]; simp)
+          | simp [hs.entry, hs.exit, hs.e2, hs.e3, hd, hst]
+  | end_ =>
+    simp only [hk, depthStepE, depthStep] at hn
+    split at hn
+    · cases hn
+    · rename_i hm0
+      simp only [Option.some.injEq] at hn
+      subst hn
+      have hst' : s.stack = List.range ((d + m) + 1) := by rw [hst]; congr 1; omega
+      have hne : d + m ≠ d := by omega
+      have hE := removeInj_other s.onElseOrEnd d (d + m) hs.ke hne
+      have hEa := any_key_false s.onElseOrEnd d (d + m) hs.ke hne
+      have hnone : ((none : Option Nat) == some (d + m)) = false := rfl
+      simp only [rstep, hs.entry, hs.exit, hk, hd, hst', range_succ_getLast, range_succ_dropLast, hs.e2, hs.e3, hnone, hEa,
+        List.isEmpty_nil, Bool.not_true, Bool.false_and, Bool.false_eq_true, if_false, if_true, List.any_nil,
+        planSpecial_clean _ _ _ hc, removeInj, List.filter_nil]
+      refine ⟨⟨?_, ?_, ?_, ?_, ?_⟩, ?_, ?_, ?_, ?_, ?_, ?_⟩ <;>
+        first
+          | exact hs.ke
+          | (show List.range (d + m) = List.range (d + 1 + (m - 1)); congr 1; omega)
+          | simp [hs.entry, hs.exit, hs.e2, hs.e3, hd]
+  | else_ =>
+    simp only [hk, depthStepE] at hn
+    split at hn
+    · cases hn
+    · rename_i hm0
+      simp only [Option.some.injEq] at hn
+      subst hn
+      obtain ⟨m1, rfl⟩ : ∃ m1, m = m1 + 1 := ⟨m - 1, by omega⟩
+      have hst' : s.stack = List.range ((d + 1 + m1) + 1) := by rw [hst]; congr 1
+      have hne : d + 1 + m1 ≠ d := by omega
+      have hEa := any_key_false s.onElseOrEnd d (d + 1 + m1) hs.ke hne
+      simp only [rstep, hs.entry, hs.exit, hk, hb, hd, hst', top_range_succ, hEa, List.isEmpty_nil, Bool.not_true, Bool.false_and,
+        Bool.false_eq_true, if_false, if_true, Option.isNone_none, Option.isSome_none, planSpecial_clean _ _ _ hc]
+      refine ⟨⟨?_, ?_, ?_, ?_, ?_⟩, ?_, ?_, ?_, ?_, ?_, ?_⟩ <;>
+        first
+          | exact hs.ke
+          | exact hst
+          | rfl
+          | simp [hs.entry, hs.exit, hs.e2, hs.e3, hd]
+  | br _ | brIf _ | brTable _ _ | other | exitLike =>
+    all_goals
+      simp only [hk, depthStepE, depthStep, Option.some.injEq] at hn
+      subst hn
+      simp only [rstep, hs.entry, hs.exit, hk, hd, List.isEmpty_nil, Bool.not_true, Bool.false_and, Bool.false_eq_true,
+        if_false, if_true, Option.isSome_none, planSpecial_clean _ _ _ hc]
+      refine ⟨⟨?_, ?_, ?_, ?_, ?_⟩, ?_, ?_, ?_, ?_, ?_, ?_⟩ <;>
+        first
+          | exact hs.ke
+          | exact hst
+          | simp [hs.entry, hs.exit, hs.e2, hs.e3, hd]
+
+theorem rloop_parkedE (last : Nat) (d : Nat) : ∀ (xs : List Instr) (s : RState) (k m m' : Nat), (∀ x ∈ xs, Clean x) →
+    ParkedE d s → s.deleteBlock = none → s.stack = List.range (d + 1 + m) → depthAfterE xs m = some m' →
+    let s' := rloop last s k xs
+    ParkedE d s' ∧ s'.deleteBlock = none ∧ s'.body = s.body ∧ s'.stack = List.range (d + 1 + m') ∧ s'.nlocals = s.nlocals
+      ∧ s'.added = s.added ∧ s'.onElseOrEnd = s.onElseOrEnd := by
+  intro xs
+  induction xs with
+  | nil =>
+    intro s k m m' _ hs hd hst hn
+    simp only [depthAfterE, Option.some.injEq] at hn
+    subst hn
+    exact ⟨hs, hd, rfl, hst, rfl, rfl, rfl⟩
+  | cons x xs ih =>
+    intro s k m m' hc hs hd hst hn
+    simp only [depthAfterE] at hn
+    cases h1 : depthStepE x.kind m with
+    | none => simp [h1] at hn
+    | some m1 =>
+      simp only [h1, Option.bind_some] at hn
+      obtain ⟨a1, a2, a3, a4, a5, a6, a7⟩ := rstep_clean_parkedE last d s k x (hc x (List.mem_cons_self ..)) hs hd m hst m1 h1
+      obtain ⟨b1, b2, b3, b4, b5, b6, b7⟩ := ih (rstep last s k x) (k + 1) m1 m'
+        (fun y hy => hc y (List.mem_cons_of_mem _ hy)) a1 a2 a4 hn
+      exact ⟨b1, b2, b3.trans a3, b4, b5.trans a5, b6.trans a6, b7.trans a7⟩
+
+theorem rstep_sel_exit_if (last : Nat) (s : RState) (A B : List Instr) (sel : Instr) (pr : List Tok) (hsel : OnlyExit sel pr)
+    (hs : Calm s) (hd : s.deleteBlock = none) (hb : s.body = A ++ sel :: B) (n : Nat) (hst : s.stack = List.range n)
+    (hk : sel.kind = .if_) :
+    let s' := rstep last s A.length sel
+    s'.entry = [] ∧ s'.exit = [] ∧ s'.onElseOrEnd = [(n, { flagged := [], notFlagged := [pr] })] ∧ s'.onEndBefore = []
+      ∧ s'.onEndAfter = [] ∧ s'.deleteBlock = none ∧ s'.stack = List.range (n + 1) ∧ s'.nlocals = s.nlocals ∧ s'.added = s.added
+      ∧ ∃ sel', s'.body = A ++ sel' :: B ∧ Clean sel' ∧ sel'.tok = sel.tok := by
+  have hne := isEmpty_false_of_ne hsel.ne
+  have hinstr : sel.hasInstr = true := by simp [Instr.hasInstr, hsel.blockExit, hne]
+  have htop : top (List.range n ++ [n]) = n := by simp [top]
+  simp only [rstep, hs.entry, hs.exit, hk, hsel.blockAlt, hd, hb, hst, planSpecial, hinstr, hsel.blockEntry, hsel.blockExit,
+    hsel.semAfter, hne, hs.e1, getInj, setInj, htop, List.length_range, modifyAt_mid,
+    List.isEmpty_nil, Bool.not_true, Bool.not_false, Bool.false_and, Bool.false_eq_true, if_false, if_true, Option.isNone_none,
+    Option.isSome_none, List.find?_nil, List.any_nil, List.nil_append]
+  refine ⟨?_, ?_, ?_, ?_, ?_, ?_, ?_, ?_, ?_, ⟨_, rfl, ⟨?_, ?_, ?_, ?_, ?_, ?_, ?_⟩, ?_⟩⟩ <;>
+    simp [hs.entry, hs.exit, hs.e1, hs.e2, hs.e3, hd, List.range_succ, hsel.before, hsel.alt, hsel.after, hsel.semAfter,
+      hsel.blockEntry, hsel.blockAlt]
+
+/-- the `else` of the `if` the body waits for: the body goes in front of it -/
+theorem rstep_else_flushE (last : Nat) (s : RState) (A B : List Instr) (ins : Instr) (hc : Clean ins) (d : Nat) (pr : List Tok)
+    (hent : s.entry = []) (hex : s.exit = []) (hE : s.onElseOrEnd = [(d, { flagged := [], notFlagged := [pr] })])
+    (hB : s.onEndBefore = []) (hA : s.onEndAfter = [])
+    (hd : s.deleteBlock = none) (hb : s.body = A ++ ins :: B) (hst : s.stack = List.range (d + 1)) (hk : ins.kind = .else_) :
+    let s' := rstep last s A.length ins
+    Calm s' ∧ s'.deleteBlock = none ∧ s'.stack = List.range (d + 1) ∧ s'.nlocals = s.nlocals ∧ s'.added = s.added
+      ∧ ∃ ins', s'.body = A ++ ins' :: B ∧ ins'.before = pr ∧ ins'.after = [] ∧ ins'.alt = none ∧ ins'.tok = ins.tok := by
+  simp only [rstep, hent, hex, hk, hc.blockAlt, hd, hb, hst, hE, top_range_succ,
+    List.isEmpty_nil, Bool.not_true, Bool.false_and, Bool.false_eq_true, if_false, if_true, List.any_cons, List.any_nil,
+    beq_self_eq_true, Bool.or_false, getInj, List.find?_cons_of_pos, removeInj, List.filter_cons, List.filter_nil,
+    bne_self_eq_false, resolveBodies_plain, addBefore, modifyAt_mid, Option.isNone_none, Option.isSome_none,
+    planSpecial_clean _ _ _ hc]
+  refine ⟨⟨?_, ?_, ?_, ?_, ?_⟩, ?_, ?_, ?_, ?_, ⟨_, rfl, ?_, ?_, ?_, ?_⟩⟩ <;>
+    simp [hent, hex, hB, hA, hd, hc.before, hc.after, hc.alt]
+
+/-- … or its `end`, when the `if` has no `else` -/
+theorem rstep_end_flushE (last : Nat) (s : RState) (A B : List Instr) (ins : Instr) (hc : Clean ins) (d : Nat) (pr : List Tok)
+    (hent : s.entry = []) (hex : s.exit = []) (hE : s.onElseOrEnd = [(d, { flagged := [], notFlagged := [pr] })])
+    (hB : s.onEndBefore = []) (hA : s.onEndAfter = [])
+    (hd : s.deleteBlock = none) (hb : s.body = A ++ ins :: B) (hst : s.stack = List.range (d + 1)) (hk : ins.kind = .end_) :
+    let s' := rstep last s A.length ins
+    Calm s' ∧ s'.deleteBlock = none ∧ s'.stack = List.range d ∧ s'.nlocals = s.nlocals ∧ s'.added = s.added
+      ∧ ∃ ins', s'.body = A ++ ins' :: B ∧ ins'.before = pr ∧ ins'.after = [] ∧ ins'.alt = none ∧ ins'.tok = ins.tok := by
+  have hnone : ((none : Option Nat) == some d) = false := rfl
+  simp only [rstep, hent, hex, hk, hd, hb, hst, hE, hB, hA, hnone, range_succ_getLast, range_succ_dropLast,
+    List.isEmpty_nil, Bool.not_true, Bool.false_and, Bool.false_eq_true, if_false, if_true, List.any_cons, List.any_nil,
+    beq_self_eq_true, Bool.or_false, getInj, List.find?_cons_of_pos, removeInj, List.filter_cons, List.filter_nil,
+    bne_self_eq_false, resolveBodies_plain, addBefore, modifyAt_mid, planSpecial_clean _ _ _ hc]
+  refine ⟨⟨?_, ?_, ?_, ?_, ?_⟩, ?_, ?_, ?_, ?_, ⟨_, rfl, ?_, ?_, ?_, ?_⟩⟩ <;>
+    simp [hent, hex, hd, hc.before, hc.after, hc.alt]
+
+/-- **block exit on an `if`, every body.** `arm` is the then-arm (no `else` of this `if` inside), `closer` the `else` of the
+    `if` — or its `end` when it has no `else` —, `rest` everything behind: the probe sits in front of `closer`. -/
+theorem blockExit_placed_if (f : Func) (pre arm rest : List Instr) (sel closer : Instr) (pr : List Tok)
+    (hbody : f.body = pre ++ sel :: arm ++ closer :: rest) (hrne : rest ≠ [])
+    (hsp : f.hasSpecial = true) (hentry : f.entry = []) (hexit : f.exit = [])
+    (hpre : ∀ x ∈ pre, Clean x) (harm : ∀ x ∈ arm, Clean x) (hcl : Clean closer) (hrest : ∀ x ∈ rest, Clean x)
+    (hsel : OnlyExit sel pr) (hk : sel.kind = .if_) (hck : closer.kind = .else_ ∨ closer.kind = .end_)
+    (n n2 : Nat) (hd1 : depthAfter pre 1 = some n) (hd2 : depthAfterE arm 0 = some 0)
+    (hd3 : depthAfter rest (if closer.kind = .else_ then n + 1 else n) = some n2) :
+    lower f = (toks pre ++ [sel.tok] ++ toks arm ++ pr ++ [closer.tok] ++ toks rest, f.added) := by
+  let last := f.body.length - 1
+  let rest' := touchLast rest hrne
+  let s0 : RState := { body := pre ++ sel :: arm ++ closer :: rest', entry := [], exit := [], nlocals := f.nlocals }
+  obtain ⟨a1, a2, a3, a4, a5, a6, _⟩ := rloop_quiet last pre s0 0 1 n hpre ⟨rfl, rfl, rfl, rfl, rfl⟩ rfl rfl hd1
+  have hb1 : (rloop last s0 0 pre).body = pre ++ sel :: (arm ++ closer :: rest') := by rw [a3]; simp [s0]
+  obtain ⟨c1, c2, c3, c4, c5, c6, c7, c8, c9, sel', c10, c11, c12⟩ :=
+    rstep_sel_exit_if last _ pre (arm ++ closer :: rest') sel pr hsel a1 a2 hb1 n a4 hk
+  have hpk : ParkedE n (rstep last (rloop last s0 0 pre) pre.length sel) :=
+    ⟨c1, c2, by rw [c3]; intro p hp; simp at hp; subst hp; rfl, c4, c5⟩
+  obtain ⟨e1, e2, e3, e4, e5, e6, e7⟩ := rloop_parkedE last n arm _ (pre.length + 1) 0 0 harm hpk c6 (by simpa using c7) hd2
+  have hb3 : (rloop last (rstep last (rloop last s0 0 pre) pre.length sel) (pre.length + 1) arm).body
+      = (pre ++ [sel'] ++ arm) ++ closer :: rest' := by rw [e3, c10]; simp
+  -- the closing `else` / `end`
+  let s3 := rloop last (rstep last (rloop last s0 0 pre) pre.length sel) (pre.length + 1) arm
+  have hclose : ∃ n3, Calm (rstep last s3 (pre ++ [sel'] ++ arm).length closer)
+        ∧ (rstep last s3 (pre ++ [sel'] ++ arm).length closer).deleteBlock = none
+        ∧ (rstep last s3 (pre ++ [sel'] ++ arm).length closer).stack = List.range n3 ∧ depthAfter rest n3 = some n2
+        ∧ (rstep last s3 (pre ++ [sel'] ++ arm).length closer).nlocals = s3.nlocals
+        ∧ (rstep last s3 (pre ++ [sel'] ++ arm).length closer).added = s3.added
+        ∧ ∃ ins', (rstep last s3 (pre ++ [sel'] ++ arm).length closer).body = (pre ++ [sel'] ++ arm) ++ ins' :: rest'
+            ∧ ins'.before = pr ∧ ins'.after = [] ∧ ins'.alt = none ∧ ins'.tok = closer.tok := by
+    rcases hck with hck | hck
+    · obtain ⟨g1, g2, g3, g4, g5, g6⟩ := rstep_else_flushE last s3 (pre ++ [sel'] ++ arm) rest' closer hcl n pr e1.entry e1.exit
+        (by rw [e7, c3]) e1.e2 e1.e3 e2 hb3 (by simpa using e4) hck
+      exact ⟨n + 1, g1, g2, g3, by simpa [hck] using hd3, g4, g5, g6⟩
+    · obtain ⟨g1, g2, g3, g4, g5, g6⟩ := rstep_end_flushE last s3 (pre ++ [sel'] ++ arm) rest' closer hcl n pr e1.entry e1.exit
+        (by rw [e7, c3]) e1.e2 e1.e3 e2 hb3 (by simpa using e4) hck
+      exact ⟨n, g1, g2, g3, by simpa [hck] using hd3, g4, g5, g6⟩
+  obtain ⟨n3, g1, g2, g3, g3', g4, g5, end', g6, g7, g8, g9, g10⟩ := hclose
+  simp only [List.length_append, List.length_singleton] at g1 g2 g3 g4 g5 g6
+  obtain ⟨k1, k2, k3, k4, k5, k6, _⟩ := rloop_quiet last rest' _ (pre.length + 1 + arm.length + 1) n3 n2
+    (touchLast_clean rest hrne hrest) g1 g2 g3 (by rw [touchLast_depth]; exact g3')
+  have hsplit : pre ++ sel :: arm ++ closer :: rest' = pre ++ ([sel] ++ (arm ++ ([closer] ++ rest'))) := by simp
+  have hres : let s' := rloop last s0 0 (pre ++ sel :: arm ++ closer :: rest')
+      s'.added = 0 ∧ ∃ sel' end', s'.body = pre ++ sel' :: arm ++ end' :: rest' ∧ Clean sel' ∧ sel'.tok = sel.tok
+          ∧ end'.before = (some pr).getD [] ∧ end'.after = (none : Option (List Tok)).getD [] ∧ end'.alt = none ∧ end'.tok = closer.tok := by
+    rw [hsplit, rloop_append, List.singleton_append, rloop, rloop_append, List.singleton_append, rloop]
+    simp only [Nat.zero_add]
+    refine ⟨?_, sel', end', ?_, c11, c12, g7, g8, g9, g10⟩
+    · rw [k6, g5, e6, c9, a6]
+    · rw [k3, g6]; simp
+  have := lower_from_region f pre arm rest sel closer (some pr) none hbody hrne hsp hentry hexit hpre harm hrest hres
+  simpa using this
+
 end Orca.Lower
